@@ -3,6 +3,7 @@
 package main
 
 import (
+	"strings"
 	"bytes"
 	"crypto/tls"
 	"encoding/base64"
@@ -102,6 +103,57 @@ func (in *inst) rawTrip(lst string, payload []byte, frameLen int, get bool) (str
 	return "err", nil
 }
 
+// rawHTTP writes request text to a plain-HTTP DoH listener and returns the status line (or what happened)
+func (in *inst) rawHTTP(lst string, req []byte) string {
+	c, err := net.DialTimeout("tcp", fmt.Sprintf("127.0.0.1:%d", in.ports[lst]), 2*time.Second)
+	if err != nil {
+		return "err"
+	}
+	defer c.Close()
+	c.Write(req)
+	if tc, ok := c.(*net.TCPConn); ok && bytes.Contains(req, []byte("HTTP/1.0")) {
+		tc.CloseWrite()
+	}
+	c.SetReadDeadline(time.Now().Add(700 * time.Millisecond))
+	buf := make([]byte, 256)
+	n, err := c.Read(buf)
+	if n == 0 {
+		if ne, ok := err.(net.Error); ok && ne.Timeout() {
+			return "none"
+		}
+		return "closed"
+	}
+	line := string(buf[:n])
+	if i := strings.Index(line, "\r\n"); i >= 0 {
+		line = line[:i]
+	}
+	return line
+}
+
+// malformed or unusual HTTP requests for the DoH listeners (the DNS payload, where there is one, is valid)
+func httpOddities(valid []byte) [][]byte {
+	b64 := base64.RawURLEncoding.EncodeToString(valid)
+	chunk := fmt.Sprintf("%x\r\n%s\r\n0\r\n\r\n", len(valid), valid)
+	h := "Host: x\r\nContent-Type: application/dns-message\r\n"
+	return [][]byte{
+		[]byte("POST /dns-query HTTP/1.1\r\n" + h + "\r\n"),                                          // POST without body and without Content-Length
+		[]byte("POST /dns-query HTTP/1.1\r\n" + h + "Content-Length: 0\r\n\r\n"),                      // empty body
+		[]byte("POST /dns-query HTTP/1.1\r\n" + h + "Transfer-Encoding: chunked\r\n\r\n" + chunk),      // chunked body
+		[]byte("POST /dns-query HTTP/1.1\r\n" + h + "Content-Length: 400\r\n\r\n" + string(valid)),     // body shorter than announced
+		[]byte("POST /dns-query HTTP/1.0\r\n" + h + "\r\n" + string(valid)),                            // HTTP/1.0, body until close
+		[]byte("POST /dns-query HTTP/1.1\r\nHost: x\r\nContent-Length: " + fmt.Sprint(len(valid)) + "\r\n\r\n" + string(valid)), // no content type
+		[]byte("GET /dns-query HTTP/1.1\r\nHost: x\r\nAccept: application/dns-message\r\n\r\n"),        // no dns parameter
+		[]byte("GET /dns-query?dns=%%%!! HTTP/1.1\r\nHost: x\r\nAccept: application/dns-message\r\n\r\n"),
+		[]byte("GET /dns-query?dns=" + b64 + "== HTTP/1.1\r\nHost: x\r\nAccept: application/dns-message\r\n\r\n"), // padded base64
+		[]byte("GET /dns-query?dns=" + b64 + " HTTP/1.1\r\nHost: x\r\n\r\n"),                           // no Accept header
+		[]byte("GET /other?dns=" + b64 + " HTTP/1.1\r\nHost: x\r\nAccept: application/dns-message\r\n\r\n"),
+		[]byte("PUT /dns-query HTTP/1.1\r\n" + h + "Content-Length: 0\r\n\r\n"),
+		[]byte("HEAD /dns-query?dns=" + b64 + " HTTP/1.1\r\nHost: x\r\nAccept: application/dns-message\r\n\r\n"),
+		[]byte("GET /dns-query?dns=" + strings.Repeat("A", 100000) + " HTTP/1.1\r\nHost: x\r\nAccept: application/dns-message\r\n\r\n"),
+		[]byte("\x00\x01\x02 garbage\r\n\r\n"),
+	}
+}
+
 func modeC01(thorough bool) {
 	// a regular-expression rule and the query log make every question name pass through the text form
 	in, err := newInst("c01", instOpts{listeners: allListeners, upstreams: map[string]string{"u1": "udp"},
@@ -173,6 +225,13 @@ func modeC01(thorough bool) {
 				in.tr.Emit("raw.send", "qn", qn, "lst", lst, "in", vtrace.Bytes(valid), "get", false, "framelen", fl)
 				out, _ := in.rawTrip(lst, valid, fl, false)
 				in.tr.Emit("raw.out", "qn", qn, "lst", lst, "outcome", out)
+			}
+		}
+		if lst == "http" || lst == "fasthttp" {
+			for _, req := range httpOddities(valid) {
+				qn := int(qnCtr.Add(1))
+				in.tr.Emit("rawhttp.send", "qn", qn, "lst", lst, "req", string(req[:min(len(req), 160)]))
+				in.tr.Emit("rawhttp.out", "qn", qn, "lst", lst, "outcome", in.rawHTTP(lst, req))
 			}
 		}
 		if lst == "udp" { // a datagram from source port 0: the response cannot be sent
